@@ -23,8 +23,9 @@ package adapter
 //@ func (a *Adapter) SetParams(ctx, params) (err)
 //@   requires[base] a != nil
 //@   modifies item_set, item_params
-//@   ensures[C18] err == nil ==> paramsAre(a, params)
-//@   ensures[C18] err != nil ==> paramsUnchanged()
+//@   ensures[C18,C17] err == nil ==> paramsAre(a, params)
+//@   ensures[C18,C17] err != nil ==> paramsUnchanged()
+//@   ensures[C17] err == nil                      // (A-COLL-OK)
 
 //@ func (s msgServer) UpdateParams(ctx, msg) (resp, err)
 //@   requires[base] msg != nil && s.Adapter != nil && s.Authorizer != nil
@@ -37,6 +38,10 @@ package adapter
 //@   modifies item_set, item_params
 //@   ensures[C18] err == nil ==> g != nil && paramsAre(a, g.Params)
 //@   ensures[C18] err != nil ==> paramsUnchanged()
+//   C17: see the genesis section at the end of this file
+//@   ensures[C17] g != nil ==> err == nil
+//@   ensures[C17] err == nil ==> g != nil && item_set[a.params] && item_params[a.params] == g.Params
+//@   ensures[C17] forall c int :: c != a.params ==> item_set[c] == old(item_set[c]) && item_params[c] == old(item_params[c])
 
 // The limit is checked before anything else happens in the pre-transfer hook: a too long passthrough
 // payload is refused with the ledger untouched.
@@ -74,3 +79,11 @@ package adapter
 //@   ensures[C11] err == nil
 //@   ensures[C01,C02,C11] err == nil ==> bank == moveIf(bal(old(bank), core.ModuleAddress, denom) > 0, old(bank), core.ModuleAddress, moduleAddr(core.DustCollectorName), denom, bal(old(bank), core.ModuleAddress, denom))
 //@   ensures[C03,C07,C18] err != nil ==> bank == old(bank)
+
+// ---------------------------------------------------------------------------------------------
+// Genesis (C17): the adapter's state is its parameters; initialisation stores them, export returns
+// what is stored, so export after initialisation returns the genesis that was initialised.
+// ---------------------------------------------------------------------------------------------
+//@ func (a *Adapter) ExportGenesis(ctx) (g)
+//@   requires[inv] a != nil && a.logger != nil
+//@   ensures[C17] g != nil && (item_set[a.params] ==> g.Params == item_params[a.params])
